@@ -429,7 +429,7 @@ Lemma run_total entry na ba : safe (run Repaired entry na ba).
 Proof.
   unfold run. cbv zeta.
   repeat (match goal with |- safe (if ?c then _ else _) => destruct c end;
-          [apply safe_rmap;
+          [first [reflexivity | apply safe_rmap;
            first [apply ppp_hdr_total|apply handle_frame_total|apply ppp_parse_options_total|apply pap_req_total
                  |apply pap_msg_total|apply chap_challenge_total|apply chap_response_total|apply echo_tail_total
                  |apply parse_tags_total|apply l2tp_parse_total|apply parse_avps_total|apply is_l2tpv3_total
@@ -437,7 +437,7 @@ Proof.
                  |apply relay_unwrap_reply_total|apply relay_txid_total|apply insert_option82_total
                  |apply strip_option82_total|apply set_option4_total|apply get_option4_total
                  |apply parse_sub82_total|apply dhcp_parse_total|apply parse_message4_total
-                 |apply attr80_window_total]|]).
+                 |apply attr80_window_total]]|]).
   reflexivity.
 Qed.
 
@@ -479,3 +479,107 @@ Proof.
   right. split; [|reflexivity].
   unfold sl, slice. destruct (Nat.leb_spec (N.to_nat 4) (N.to_nat len)); [lia|]. reflexivity.
 Qed.
+
+(* ---------------- round trips ---------------- *)
+Lemma idx0 x l : idx 0 (x :: l) = Ok x.
+Proof. reflexivity. Qed.
+Lemma idx1 x y l : idx 1 (x :: y :: l) = Ok y.
+Proof. reflexivity. Qed.
+Lemma idx_app_mid a x c i : i = lenN a -> idx i (a ++ x :: c) = Ok x.
+Proof.
+  intros ->. unfold idx, index, lenN. rewrite Nat2N.id, nth_error_app2, Nat.sub_diag by lia. reflexivity.
+Qed.
+Lemma sl_app_mid a b c lo hi : lo = lenN a -> hi = lenN a + lenN b -> sl lo hi (a ++ b ++ c) = Ok b.
+Proof.
+  intros -> ->. unfold sl, slice, lenN.
+  replace (N.to_nat (N.of_nat (length a) + N.of_nat (length b))) with (length a + length b)%nat by lia.
+  rewrite Nat2N.id.
+  destruct (Nat.leb_spec (length a) (length a + length b)); [|lia].
+  destruct (Nat.leb_spec (length a + length b) (length (a ++ b ++ c))); [|rewrite !app_length in *; lia].
+  cbn [andb]. f_equal.
+  rewrite skipn_app, skipn_all, Nat.sub_diag. cbn [skipn app].
+  replace (length a + length b - length a)%nat with (length b) by lia.
+  rewrite firstn_app, firstn_all, Nat.sub_diag. cbn [firstn]. apply app_nil_r.
+Qed.
+Lemma slf_app a b lo : lo = lenN a -> slf lo (a ++ b) = Ok b.
+Proof.
+  intros ->. unfold slf, slice, lenN. rewrite Nat2N.id.
+  destruct (Nat.leb_spec (length a) (length (a ++ b))); [|rewrite app_length in *; lia].
+  rewrite Nat.leb_refl. cbn [andb]. f_equal.
+  rewrite skipn_app, skipn_all, Nat.sub_diag. cbn [skipn app].
+  apply firstn_all2. rewrite app_length. lia.
+Qed.
+Lemma byte_of_small n : n < 256 -> byte_of n = n.
+Proof. unfold byte_of. intros. apply N.mod_small. assumption. Qed.
+
+Definition wf_opt (o : N * bytes) : Prop := lenN (snd o) + 2 < 256.
+Lemma ppp_options_roundtrip_fuel : forall opts fuel, Forall wf_opt opts ->
+  (length (ppp_serialize_options opts) < fuel)%nat ->
+  ppp_opts_loop fuel (ppp_serialize_options opts) = Ok opts.
+Proof.
+  induction opts as [|[t d] r IH]; intros fuel Hwf Hf.
+  - destruct fuel; [cbn in Hf; lia|]. reflexivity.
+  - destruct fuel; [lia|]. inversion Hwf as [|? ? Hw Hr]; subst. unfold wf_opt in Hw. cbn [snd] in Hw.
+    cbn [ppp_serialize_options] in *. cbn [ppp_opts_loop].
+    set (l := byte_of (2 + lenN d)).
+    assert (Hl : l = 2 + lenN d) by (apply byte_of_small; lia).
+    assert (Hlen : lenN (t :: l :: d ++ ppp_serialize_options r) = 2 + lenN d + lenN (ppp_serialize_options r)).
+    { unfold lenN. cbn [length]. rewrite app_length. lia. }
+    destruct (2 <=? lenN (t :: l :: d ++ ppp_serialize_options r)) eqn:E; [|lia].
+    rewrite idx0, idx1. cbn [rbind].
+    destruct ((l <? 2) || (lenN (t :: l :: d ++ ppp_serialize_options r) <? l)) eqn:E2; [lia|].
+    rewrite (sl_app_mid [t; l] d (ppp_serialize_options r)) by (unfold lenN in *; cbn [length] in *; lia).
+    cbn [rbind].
+    change (t :: l :: d ++ ppp_serialize_options r) with ((t :: l :: d) ++ ppp_serialize_options r).
+    rewrite slf_app by (unfold lenN in *; cbn [length]; lia). cbn [rbind].
+    rewrite IH; [reflexivity|assumption|].
+    cbn [length] in Hf. rewrite app_length in Hf. lia.
+Qed.
+Lemma ppp_options_roundtrip opts : Forall wf_opt opts ->
+  ppp_parse_options (ppp_serialize_options opts) = Ok opts.
+Proof. intros. apply ppp_options_roundtrip_fuel; [assumption|lia]. Qed.
+
+Lemma pap_roundtrip u p : lenN u < 256 -> lenN p < 256 -> pap_req (pap_build u p) = Ok (Some (u, p)).
+Proof.
+  intros Hu Hp. unfold pap_req, pap_build.
+  rewrite (byte_of_small _ Hu), (byte_of_small _ Hp).
+  assert (Hlen : lenN (lenN u :: u ++ lenN p :: p) = 2 + lenN u + lenN p).
+  { unfold lenN. cbn [length]. rewrite app_length. cbn [length]. lia. }
+  destruct (lenN (lenN u :: u ++ lenN p :: p) <? 2) eqn:E0; [lia|].
+  rewrite idx0. cbn [rbind].
+  destruct (lenN (lenN u :: u ++ lenN p :: p) <? 1 + lenN u + 1) eqn:E1; [lia|].
+  rewrite (sl_app_mid [lenN u] u (lenN p :: p)) by (unfold lenN in *; cbn [length] in *; lia). cbn [rbind].
+  change (lenN u :: u ++ lenN p :: p) with ((lenN u :: u) ++ lenN p :: p).
+  rewrite idx_app_mid by (unfold lenN in *; cbn [length] in *; lia). cbn [rbind].
+  destruct (lenN ((lenN u :: u) ++ lenN p :: p) <? 2 + lenN u + lenN p) eqn:E2;
+    [change ((lenN u :: u) ++ lenN p :: p) with (lenN u :: u ++ lenN p :: p) in E2; lia|].
+  replace ((lenN u :: u) ++ lenN p :: p) with ((lenN u :: u ++ [lenN p]) ++ p ++ [])
+    by (cbn [app]; rewrite <- app_assoc, app_nil_r; reflexivity).
+  rewrite sl_app_mid; [reflexivity| |]; unfold lenN; cbn [length]; rewrite app_length; cbn [length]; lia.
+Qed.
+
+Lemma chap_roundtrip v n : lenN v < 256 -> chap_response (chap_build v n) = Ok (Some (v, n)).
+Proof.
+  intros Hv. unfold chap_response, chap_build. rewrite (byte_of_small _ Hv).
+  assert (Hlen : lenN (lenN v :: v ++ n) = 1 + lenN v + lenN n).
+  { unfold lenN. cbn [length]. rewrite app_length. lia. }
+  destruct (lenN (lenN v :: v ++ n) <? 1) eqn:E0; [lia|].
+  rewrite idx0. cbn [rbind].
+  destruct (lenN (lenN v :: v ++ n) <? 1 + lenN v) eqn:E1; [lia|].
+  rewrite (sl_app_mid [lenN v] v n) by (unfold lenN in *; cbn [length] in *; lia). cbn [rbind].
+  change (lenN v :: v ++ n) with ((lenN v :: v) ++ n).
+  rewrite slf_app by (unfold lenN in *; cbn [length] in *; lia). reflexivity.
+Qed.
+
+Lemma ppp_options_roundtrip_nonvacuous :
+  Forall wf_opt [(1, [5; 220]); (5, [1; 2; 3; 4]); (3, [194; 35; 5])] /\
+  ppp_serialize_options [(1, [5; 220]); (5, [1; 2; 3; 4]); (3, [194; 35; 5])] =
+    [1; 4; 5; 220; 5; 6; 1; 2; 3; 4; 3; 5; 194; 35; 5].
+Proof. split; [repeat constructor; vm_compute; reflexivity|vm_compute; reflexivity]. Qed.
+Lemma pap_roundtrip_nonvacuous :
+  lenN [117; 115; 101; 114] < 256 /\ lenN [112; 119] < 256 /\
+  pap_build [117; 115; 101; 114] [112; 119] = [4; 117; 115; 101; 114; 2; 112; 119].
+Proof. vm_compute. repeat split. Qed.
+Lemma fuel_nonvacuous :
+  (length [12; 0; 0; 9; 0; 4; 1; 2; 3; 4] < 11)%nat /\ 4 <= 34.
+Proof. split; [vm_compute; lia|lia]. Qed.
